@@ -98,6 +98,20 @@ func c18Alphabet(slots []string, nkeys int, thorough bool) func(m *model.Model) 
 					add("AddIndex(gsx)", drv.Op{K: drv.KAddIndex, Table: s, IdxCfg: &drv.IndexCfg{Name: "gsx", Hash: "a", Range: "g"}})
 				}
 			}
+			// several index changes in one request: all of them or none
+			{
+				thr := t.Cfg.Billing != "PAY_PER_REQUEST"
+				gsy := &drv.IndexCfg{Name: "gsy", Hash: "g", HashT: "S", Throughput: thr}
+				if _, ok := t.Indexes["gsy"]; !ok {
+					add("UpdateTable(create gsy, delete unknown)", drv.Op{K: drv.KUpdateTbl, Table: s, Changes: []drv.IdxChange{{Create: gsy}, {Delete: "nosuchindex"}}})
+					if _, ok := t.Indexes["gsx"]; ok {
+						add("UpdateTable(delete gsx, create gsy)", drv.Op{K: drv.KUpdateTbl, Table: s, Changes: []drv.IdxChange{{Delete: "gsx"}, {Create: gsy}}})
+						add("UpdateTable(delete gsx, delete unknown)", drv.Op{K: drv.KUpdateTbl, Table: s, Changes: []drv.IdxChange{{Delete: "gsx"}, {Delete: "nosuchindex"}}})
+					}
+				} else {
+					add("UpdateTable(delete gsy)", drv.Op{K: drv.KDeleteGSI, Table: s, Index: "gsy"})
+				}
+			}
 			for i := 1; i <= nkeys; i++ {
 				k := c18Key(t.Cfg, i)
 				add("Put", drv.Op{K: drv.KPut, Table: s, Item: with(k, "a", val.S("v"), "g", val.S("x"))})
